@@ -3,8 +3,13 @@
      x/net/http2 Framer.readMetaFrame + MetaHeadersFrame.checkPseudos   (fscan, check_pseudos)
      internal/transport/http2_server.go  operateHeaders                  (hstep, decide_req, headers_step)
                                          HandleStreams (StreamError / ConnectionError paths),
-                                         handleRSTStream, handleData (empty frames), writeStatus,
-                                         closeStream/deleteStream, writeEarlyAbort, outgoing GOAWAY
+                                         handleRSTStream, handleData (empty frames), write, writeStatus,
+                                         finishStream, closeStream/deleteStream, writeEarlyAbort,
+                                         outgoing GOAWAY
+     internal/transport/controlbuf.go    loopy's stream-level flow control as far as it decides WHEN the
+                                         END_STREAM trailers of a finished stream are written
+                                         (processData / updateStreamAfterWrite / incomingWindowUpdateHandler /
+                                         cleanupStreamHandler -> onWrite -> deleteStream)
      internal/grpcutil/method.go         ContentSubtype                   (ct_valid)
      decodeTimeout is model/Timeout.v (C07), decodeBinHeader is MDWire.decode_bin (C09).
    Header field names are drawn from a fixed table (kind -> name), values are byte lists.
@@ -207,17 +212,25 @@ Definition decide_req (reachable : bool) (nact maxs : Z) (fs : list field) : dec
   else DAccept (a_tset a) (fix_authority (a_md a)) (a_path a).
 
 (* ---- the connection as a state machine ---- *)
-(* stream states: 0 streamActive, 1 streamReadDone, 2 streamDone (only while loopy is gone) *)
+(* stream states: 0 streamActive, 1 streamReadDone,
+   streamDone but still in t.activeStreams because the END_STREAM trailers have not been written:
+     2 loopy is gone,
+     3 / 4 loopy holds DATA + trailers behind the stream's send window (3: the stream was
+           streamActive when it finished, RST_STREAM(NO_ERROR) follows the trailers; 4: it was
+           streamReadDone) *)
 Record sstate := mkst {
   s_max : Z;                     (* t.maxStreamID *)
   s_active : list (Z * Z);       (* t.activeStreams: (id, stream state) *)
   s_handled : Z;                 (* number of handler invocations *)
   s_mode : Z;                    (* 0 reachable; 1 draining after the GOAWAY(PROTOCOL), loopy has exited; 2 closed *)
-  s_post : Z }.                  (* ops executed in mode 1 (driver protocol: at most [budget]) *)
-Definition st0 := mkst 0 [] 0 0 0.
+  s_post : Z;                    (* ops executed in mode 1 (driver protocol: at most [budget]) *)
+  s_win : list (Z * Z) }.        (* per stream: WINDOW_UPDATE credit received minus bytes handed to loopy
+                                    (loopy's -bytesOutStanding once everything sendable is sent) *)
+Definition st0 := mkst 0 [] 0 0 0 [].
 Definition budget := 20.
 
-Record config := mkcfg { c_maxs : Z; c_limit : Z; c_tiny : bool }.
+(* c_zw: the client's SETTINGS carry INITIAL_WINDOW_SIZE = 0 (loopy's oiws) *)
+Record config := mkcfg { c_maxs : Z; c_limit : Z; c_tiny : bool; c_zw : bool }.
 
 Fixpoint find_stream (sid : Z) (l : list (Z * Z)) : option Z :=
   match l with
@@ -237,7 +250,13 @@ Definition out (st : sstate) (ev : list Z) : list Z := if alive st then ev else 
 Definition ev_rst (sid code : Z) : list Z := [3; sid; code; 0].
 Definition ev_hdr (sid http grpc : Z) : list Z := [1; sid; http; grpc].
 Definition with_active (st : sstate) (l : list (Z * Z)) : sstate :=
-  mkst (s_max st) l (s_handled st) (s_mode st) (s_post st).
+  mkst (s_max st) l (s_handled st) (s_mode st) (s_post st) (s_win st).
+(* the stream's send window: oiws - bytesOutStanding *)
+Definition w0 (cfg : config) : Z := if c_zw cfg then 0 else 65535.        (* oiws *)
+Definition window (cfg : config) (st : sstate) (sid : Z) : Z :=
+  w0 cfg + match find_stream sid (s_win st) with Some d => d | None => 0 end.
+Definition with_win (st : sstate) (sid d : Z) : sstate :=
+  mkst (s_max st) (s_active st) (s_handled st) (s_mode st) (s_post st) ((sid, d) :: del_stream sid (s_win st)).
 
 (* HandleStreams on http2.StreamError{sid, code}: close the active stream or just RST *)
 Definition stream_error (st : sstate) (sid code : Z) : sstate * list Z :=
@@ -263,15 +282,15 @@ Definition headers_step (cfg : config) (st : sstate) (sid : Z) (ended : bool) (f
   | MFrame l false =>
     if Z.even sid || (sid <=? s_max st) then
       (* illegal stream id: GOAWAY(maxStreamID, PROTOCOL), state = draining, loopy exits *)
-      (mkst (s_max st) (s_active st) (s_handled st) 1 (s_post st), out st [7; s_max st; E_PROTOCOL; 0])
+      (mkst (s_max st) (s_active st) (s_handled st) 1 (s_post st) (s_win st), out st [7; s_max st; E_PROTOCOL; 0])
     else
-      let st1 := mkst sid (s_active st) (s_handled st) (s_mode st) (s_post st) in
+      let st1 := mkst sid (s_active st) (s_handled st) (s_mode st) (s_post st) (s_win st) in
       match decide_req (alive st) (lenZ (s_active st)) (c_maxs cfg) l with
       | DRst code => (st1, out st (ev_rst sid code))
       | DAbort http grpc => (st1, out st (ev_abort cfg sid http grpc ended))
       | DDropped => (st1, [])
       | DAccept tset md path =>
-        (mkst sid (s_active st ++ [(sid, b2z ended)]) (s_handled st + 1) (s_mode st) (s_post st),
+        (mkst sid (s_active st ++ [(sid, b2z ended)]) (s_handled st + 1) (s_mode st) (s_post st) (s_win st),
          [9; sid; b2z tset; b2z ended; lenZ md; md_nvals md] ++ put_bytes path ++ auth_obs md)
       end
   end.
@@ -282,30 +301,64 @@ Inductive op :=
 | OFinish (sid : Z)
 | OData (sid : Z) (ended : bool)
 | OConnErr
-| OWinUpd (sid : Z).
+| OWinUpd (sid : Z)
+| OWriteFinish (sid n : Z)
+| OWindow (sid inc : Z).
+
+(* the application finishes stream sid: WriteStatus(OK), after a Write of a 5 + n byte message
+   when wr = Some n.  The stream leaves t.activeStreams when loopy writes the END_STREAM
+   trailers (cleanupStream.onWrite), which it does only after the DATA queued before them *)
+Definition finish_op (cfg : config) (st : sstate) (sid : Z) (wr : option Z) : sstate * list Z :=
+  match find_stream sid (s_active st) with
+  | None => (st, [])
+  | Some s =>
+    if 2 <=? s then (st, [])           (* streamDone: Write and WriteStatus return at once *)
+    else if c_tiny cfg then (with_active st (del_stream sid (s_active st)), out st (ev_rst sid E_INTERNAL))
+    else if alive st then
+      let fin := if s =? 0 then ev_rst sid E_NO else [] in
+      match wr with
+      | None => (with_active st (del_stream sid (s_active st)), ev_hdr sid 200 0 ++ fin)
+      | Some n =>
+        (* HEADERS (no END_STREAM) at once; DATA as far as the stream's send window allows;
+           the trailers only after the last byte of DATA *)
+        let w := window cfg st sid - (5 + n) in
+        if 0 <=? w then
+          (with_active st (del_stream sid (s_active st)), ev_hdr sid 1200 (-1) ++ ev_hdr sid (-1) 0 ++ fin)
+        else
+          (with_active (with_win st sid (w - w0 cfg)) (set_stream sid (3 + s) (s_active st)),
+           ev_hdr sid 1200 (-1))
+      end
+    else (with_active st (set_stream sid 2 (s_active st)), [])
+  end.
 
 Definition exec_op (cfg : config) (st : sstate) (o : op) : sstate * list Z :=
   match o with
   | OHeaders sid ended fs => headers_step cfg st sid ended fs
   | ORst sid => (with_active st (del_stream sid (s_active st)), [])
-  | OFinish sid =>
-    match find_stream sid (s_active st) with
-    | None => (st, [])
-    | Some 2 => (st, [])
-    | Some s =>
-      if c_tiny cfg then (with_active st (del_stream sid (s_active st)), out st (ev_rst sid E_INTERNAL))
-      else if alive st then
-        (with_active st (del_stream sid (s_active st)),
-         ev_hdr sid 200 0 ++ (if s =? 0 then ev_rst sid E_NO else []))
-      else (with_active st (set_stream sid 2 (s_active st)), [])
-    end
+  | OFinish sid => finish_op cfg st sid None
+  | OWriteFinish sid n => finish_op cfg st sid (Some n)
+  | OWindow sid inc =>
+    (* WINDOW_UPDATE(sid, inc > 0): loopy adds the credit to a stream it knows; a finished stream
+       whose queued DATA now fits is flushed: DATA, END_STREAM trailers (+ RST_STREAM), and only
+       now it leaves t.activeStreams *)
+    if alive st then
+      match find_stream sid (s_active st) with
+      | None => (st, [])
+      | Some s =>
+        let w := window cfg st sid + inc in
+        if (3 <=? s) && (0 <=? w) then
+          (with_active st (del_stream sid (s_active st)),
+           ev_hdr sid (-1) 0 ++ (if s =? 3 then ev_rst sid E_NO else []))
+        else (with_win st sid (w - w0 cfg), [])
+      end
+    else (st, [])
   | OData sid ended =>
     match find_stream sid (s_active st) with
     | None => (st, [])
     | Some 1 => (with_active st (del_stream sid (s_active st)), out st (ev_rst sid E_STREAM_CLOSED))
     | Some s => if ended && (s =? 0) then (with_active st (set_stream sid 1 (s_active st)), []) else (st, [])
     end
-  | OConnErr => (mkst (s_max st) [] (s_handled st) 2 (s_post st), [8; 0; 0; 0])
+  | OConnErr => (mkst (s_max st) [] (s_handled st) 2 (s_post st) (s_win st), [8; 0; 0; 0])
   | OWinUpd sid => stream_error st sid E_PROTOCOL
   end.
 
@@ -315,7 +368,7 @@ Definition step (cfg : config) (st : sstate) (o : op) : sstate * list Z :=
   if (s_mode st =? 2) || ((s_mode st =? 1) && (s_post st >=? budget)) then (st, [])
   else
     let st' := if s_mode st =? 1
-               then mkst (s_max st) (s_active st) (s_handled st) (s_mode st) (s_post st + 1) else st in
+               then mkst (s_max st) (s_active st) (s_handled st) (s_mode st) (s_post st + 1) (s_win st) else st in
     exec_op cfg st' o.
 
 Definition hdr_obs (st : sstate) : list Z := [lenZ (s_active st); s_handled st; s_max st].
@@ -346,12 +399,16 @@ Definition decode_op (limit : Z) (w : word) : option op :=
   | [4; sid; e] => if in_sid sid && ((e =? 0) || (e =? 1)) then Some (OData sid (e =? 1)) else None
   | [5; v] => if (0 <=? v) && (v <=? 8) then Some OConnErr else None
   | [6; sid] => if in_sid sid then Some (OWinUpd sid) else None
+  | [9; sid; n] => if in_sid sid && (0 <=? n) && (n <=? 1000) then Some (OWriteFinish sid n) else None
+  | [10; sid; inc] => if in_sid sid && (1 <=? inc) && (inc <=? 2147483647) then Some (OWindow sid inc) else None
   | _ => None
   end.
 Definition decode_cfg (w : word) : option config :=
+  let ok m l t z := (0 <=? m) && (m <=? max_u32) && (128 <=? l) && (l <=? 65536) && ((t =? 0) || (t =? 1)) &&
+                    ((z =? 0) || (z =? 1)) in
   match w with
-  | [m; l; t] => if (0 <=? m) && (m <=? max_u32) && (128 <=? l) && (l <=? 65536) && ((t =? 0) || (t =? 1))
-                 then Some (mkcfg m l (t =? 1)) else None
+  | [m; l; t] => if ok m l t 0 then Some (mkcfg m l (t =? 1) false) else None
+  | [m; l; t; z] => if ok m l t z then Some (mkcfg m l (t =? 1) (z =? 1)) else None
   | _ => None
   end.
 Fixpoint decode_ops (limit : Z) (ws : list word) : option (list op) :=
@@ -419,6 +476,11 @@ Definition down_event (ev : list Z) : bool := has_event 7 ev 8 || has_event 8 ev
    4 handler => every grpc-timeout well-formed   5 handler => at most one :authority and one host
    6 handler => every -bin value decodes         7 active streams <= MaxConcurrentStreams
    8 admissible request with a legal id while the limit is reached => RST_STREAM(REFUSED_STREAM), no handler
+     (the limit is reached by the implementation's own count, len(t.activeStreams) of the previous observation)
+  10 the same with the streams counted from the history of the connection (the model's
+     s_active: streams handed to a handler whose end - END_STREAM trailers or RST_STREAM from
+     the server, RST_STREAM from the client - has not been on the wire; a finished stream whose
+     response waits for flow-control window counts)
    9 handler => no invalid content-type field at all (literal reading; see C12_mixed_content_type_refuted) *)
 Definition clause_op (cfg : config) (p : cstate) (w ob : word) : list (Z * Z * bool) * cstate :=
   match ob with
@@ -445,16 +507,32 @@ Definition clause_op (cfg : config) (p : cstate) (w ob : word) : list (Z * Z * b
   | _ => ([ (0, 0, false) ], p)
   end.
 
-Fixpoint clauses_from (cfg : config) (p : cstate) (ops obs : list word) : list (Z * Z * bool) :=
+(* clause 10: the situation (connection alive, legal id, admissible request, limit reached) is
+   classified on the model state [st] reached by the op history; what happened (handler
+   counter, frames) is the observation's *)
+Definition clause_model (cfg : config) (st : sstate) (p : cstate) (w ob : word) : list (Z * Z * bool) :=
+  match decode_op (c_limit cfg) w, ob with
+  | Some (OHeaders sid ended fs), n :: h :: m :: ev =>
+    [ (10, sid, negb (alive st && legal_id (s_max st) sid && admissible (c_limit cfg) fs &&
+                      (c_maxs cfg <=? lenZ (s_active st)))
+                || (negb (p_h p <? h) && word_eqb ev (ev_rst sid E_REFUSED))) ]
+  | _, _ => []
+  end.
+Definition model_next (cfg : config) (st : sstate) (w : word) : sstate :=
+  match decode_op (c_limit cfg) w with Some o => fst (step cfg st o) | None => st end.
+
+Fixpoint clauses_from (cfg : config) (p : cstate) (st : sstate) (ops obs : list word) : list (Z * Z * bool) :=
   match ops, obs with
-  | w :: r, ob :: r' => let '(cl, p') := clause_op cfg p w ob in cl ++ clauses_from cfg p' r r'
+  | w :: r, ob :: r' =>
+    let '(cl, p') := clause_op cfg p w ob in
+    cl ++ clause_model cfg st p w ob ++ clauses_from cfg p' (model_next cfg st w) r r'
   | [], [] => []
   | _, _ => [(0, 0, false)]
   end.
 
 Definition clauses (cfg : word) (ops obs : list word) : list (Z * Z * bool) :=
   match decode_cfg cfg with
-  | Some c => clauses_from c cs0 ops obs
+  | Some c => clauses_from c cs0 st0 ops obs
   | None => [(0, 0, false)]
   end.
 
